@@ -208,9 +208,32 @@ func (p *c09Proc) close() {
 // than the deadline) is blocked, not starved. c09WallBackstop x deadline: the wall clock limit that
 // applies whatever the CPU accounting says.
 const (
-	c09BlockedAfter = 3 * time.Second
+	c09BlockedAfter = 4 * time.Second
 	c09WallBackstop = 20
 )
+
+// allSleeping: every thread of the worker is in interruptible sleep (waiting on a futex, a pipe, a
+// timer): nothing of it wants the CPU.
+func (p *c09Proc) allSleeping() bool {
+	dir := fmt.Sprintf("/proc/%d/task", p.cmd.Process.Pid)
+	ents, err := os.ReadDir(dir)
+	if err != nil || len(ents) == 0 {
+		return true
+	}
+	for _, en := range ents {
+		b, err := os.ReadFile(filepath.Join(dir, en.Name(), "stat"))
+		if err != nil {
+			continue
+		}
+		s := string(b)
+		if i := strings.LastIndexByte(s, ')'); i >= 0 && i+2 < len(s) {
+			if st := s[i+2]; st == 'R' || st == 'D' {
+				return false
+			}
+		}
+	}
+	return true
+}
 
 // cpu: user + system time the worker process (all threads) has consumed.
 func (p *c09Proc) cpu() (time.Duration, bool) {
@@ -410,7 +433,13 @@ func (e *c09Engine) runSome(cases []c09Case, res []c09Result, grace bool) int {
 			case cpu-cpuBase > e.Deadline:
 				hang = true // busy for more than the deadline
 			case now.Sub(cpuSeenAt) > c09BlockedAfter:
-				hang = true // blocked: no CPU consumed for seconds (a runnable process gets its share at any load)
+				// no CPU consumed for seconds: blocked — unless a thread is runnable or in uninterruptible
+				// sleep (starved / paging on an overloaded machine), then the idle window starts again
+				if p.allSleeping() {
+					hang = true
+				} else {
+					cpuSeenAt = now
+				}
 			case wall > c09WallBackstop*e.Deadline:
 				hang = true
 			}
